@@ -12,7 +12,7 @@ from decimal import Decimal
 
 import rtemporal as R
 import runner
-from common import chunks, crash_signature, panic_signature, rng_for
+from common import chunks, crash_signature, rng_for
 
 LEVEL = "exploration"
 
@@ -438,7 +438,7 @@ class Judge:
             rep.violation(sig, "[%s] %s %r: %s" % (path, kind, text, what), {"variant": "dbg", "case": replay_case, "expected": expected, "observed": obs})
 
         if isinstance(obs, dict) and "panic" in obs:
-            viol(panic_signature(obs["panic"]), "panic: %s" % obs["panic"].get("msg"), "no panic")
+            viol(R.panic_site_signature(obs["panic"]), "panic: %s" % obs["panic"].get("msg"), "no panic")
             return
         self.bump("%s:%s" % (kind, cls.status))
         if obs is None:
@@ -461,7 +461,7 @@ class Judge:
             rep.undecided += 1
             return
         expected = cls.value if cls.status in ("valid", "huge") else None
-        if cls.status == "undecided" and cls.reason == "fraction-beyond-nanoseconds" and cls.value is not None:
+        if cls.status == "undecided" and cls.reason in ("fraction-beyond-nanoseconds", "fraction-without-digits") and cls.value is not None:
             # everything but the fraction is settled
             diff = first_diff(kind, cls.value if kind != "dur" else cls.value, pc.value)
             if diff and not diff.startswith("fraction"):
@@ -496,7 +496,7 @@ class Judge:
             return
         eq = obs.get("eq")
         if isinstance(eq, dict) and "panic" in eq:
-            viol(panic_signature(eq["panic"]), "panic comparing the value with its re-read print %r: %s" % (s, eq["panic"].get("msg")), "true")
+            viol(R.panic_site_signature(eq["panic"]), "panic comparing the value with its re-read print %r: %s" % (s, eq["panic"].get("msg")), "true")
             return
         s2 = obs.get("s2")
         if s2 != s:
@@ -504,9 +504,13 @@ class Judge:
             p2 = R.classify(kind, s2, self.zones) if isinstance(s2, str) else None
             diff = first_diff(kind, pc.value, p2.value) if p2 is not None and p2.status in ("valid", "huge") else None
             if diff:
-                viol("lossy:%s:%s" % (diff_component(dk, diff), diff if tag == "generic" else "%s:%s" % (diff, tag)), "print %r re-read prints %r" % (s, s2), s)
+                viol("lossy:%s:%s" % (diff_component(dk, diff), diff if pc.status != "huge" else "%s:%s" % (diff, pc.reason)), "print %r re-read prints %r" % (s, s2), s)
             else:
                 viol("print-unstable:%s:%s" % (comp, tag), "print %r, print of the re-read value %r" % (s, s2), s)
+            return
+        if eq is None and kind == "dt" and isinstance(pc.value, tuple) and pc.value[7] is not None and pc.value[7][0] == "zone":
+            # a local time inside a DST gap of its zone does not exist: null is tolerated (a panic is not)
+            rep.undecided += 1
             return
         if eq is not True:
             viol("reparse-not-equal:%s:%s:%s" % (comp, "eq-null" if eq is None else "eq-false", tag), "value read back from its print %r is not equal to the value (= gave %r)" % (s, eq), True)
@@ -709,8 +713,9 @@ def run(rep, tier, seed):
     rep.assumptions = [
         "reference grammar/validator in lib/rtemporal.py (XSD lexical forms restricted as the property states: hour<24, minute/second<60, |offset hour|<=14 with minute/second<60, "
         "Gregorian validity, |year|<=999999999); zone validity = membership in chrono_tz::TZ_VARIANTS as listed by the driver",
-        "undecided and never a violation: year 0000, years with more than 4 digits and a leading zero, lowercase 'z', more than 9 fraction digits with a non-zero tail, "
+        "undecided and never a violation: a duration seconds fraction without digits (`PT0.S`, pinned as accepted by the implementation's own unit tests), year 0000, years with more than 4 digits and a leading zero, lowercase 'z', more than 9 fraction digits with a non-zero tail, "
         "mixed year-month/day-time durations, a date-only string given to `date and time()`, zone ids differing only in case, components above 2^64-1 / 2^63-1 months (null or the exact value accepted)",
+        "a date-time with a named zone that is not equal to itself (`=` gives null) is undecided: the local time may fall into a DST gap, which the reference does not model",
         "a time with a named zone is only exercised between 06:00 and 20:00 because the implementation validates it against today's date",
     ]
     n_self = R.self_test()
@@ -725,7 +730,7 @@ def run(rep, tier, seed):
     rep.extra["zone_ids"] = len(zones_list)
 
     rng = rng_for(seed, "c14-gen")
-    scale = 1 if quick else 40
+    scale = 1 if quick else 80
     items = []
     items += gen_dates(rng, 3000 * scale)
     offs = gen_offsets()
@@ -840,7 +845,7 @@ def run(rep, tier, seed):
                 rep.count()
                 n_at += 1
                 if "panic" in r:
-                    rep.violation(panic_signature(r["panic"]), "[@] panic on @%r: %s" % (s, r["panic"].get("msg")), {"variant": "dbg", "case": rcase})
+                    rep.violation(R.panic_site_signature(r["panic"]), "[@] panic on @%r: %s" % (s, r["panic"].get("msg")), {"variant": "dbg", "case": rcase})
                     continue
                 if "v" not in r:
                     if "perr" in r and (kind, s) in direct and direct[(kind, s)] is None:
